@@ -68,6 +68,14 @@ def gen_cases(tier):
         for std in stds[:1] if tier == "quick" else stds:
             yield {"kind": "import", "ns": ns, "std": std}
     yield {"kind": "digit-names"}
+    # every pair of (importer namespace, imported namespace) over two component names, up to two components each,
+    # plus a namespace whose first component is also a type name
+    NS = [None, "a", "b", "a::b", "b::a", "a::a", "Main::v1"]
+    for ns in NS:
+        yield {"kind": "ns-pairs", "ns": ns, "others": NS}
+    # parameterised fields: parameter type x argument form x size form x start form
+    for ptype in ("Kind", "UInt:8"):
+        yield {"kind": "param-dyn", "ptypes": [ptype]}
 
 
 UNCHECKED = r'''
@@ -321,6 +329,55 @@ def check_case(case):
             if status == "ok":
                 nt.append(label)
         return {"viol": viol, "n": 3, "nt": nt}
+    if k == "ns-pairs":
+        viol, nt = [], []
+        ns = case["ns"]
+        for ins in case["others"]:
+            imp = ('[$default byte_order: "LittleEndian"]\n' + ('[(cpp) namespace: "%s"]\n' % ins if ins else "") +
+                   "enum Kind:\n  KA = 0\n  KB = 1\nstruct Inner:\n  0 [+1]  UInt  a\n  let k = 5\nstruct Par(pp: UInt:8, pk: Kind):\n  0 [+1]  UInt  y\n")
+            main = ('import "imp.emb" as im\n[$default byte_order: "LittleEndian"]\n' + ('[(cpp) namespace: "%s"]\n' % ns if ns else "") +
+                    "struct Main:\n  0 [+1]  im.Kind  kind\n  1 [+1]  im.Inner  inner\n  2 [+1]  enum  mode:\n    MA = 1\n"
+                    "  if kind == im.Kind.KB:\n    3 [+im.Inner.k]  im.Inner[5]  arr\n"
+                    "  8 [+1]  im.Par(inner.a, kind)  par\n  let c = im.Inner.k + 1\n  let m = mode == Mode.MA\n")
+            cns = "::emboss_generated_code" if not ns else "::" + ns.lstrip(":")
+            drv = ("#include \"prog.emb.h\"\n#include <string>\nint main() { unsigned char b[16] = {0}; auto v = %s::MakeMainView(b, sizeof b); (void)v.Ok();"
+                   " (void)v.kind().Read(); (void)v.inner().a().Read(); (void)v.arr()[0].a().Read(); (void)v.par().y().Read(); (void)v.c().Read(); (void)v.m().Read();"
+                   " (void)v.mode().Read(); auto w = v; (void)v.Equals(w); std::string t = ::emboss::WriteToString(v); (void)::emboss::UpdateFromText(v, t);"
+                   " static_assert(%s::Main::c() == 6, \"c\"); return 0; }\n" % (cns, cns))
+            label = "ns-pairs importer=%s imported=%s" % (ns, ins)
+            if ns == ins and ns is not None:
+                continue          # both modules in one namespace define different things: fine, but Kind/Inner would need distinct names
+            v, status = compile_only({"m.emb": main, "imp.emb": imp}, "m.emb", lambda ir: drv, "c++14", True, "g++", label, {"emb": main, "imp": imp})
+            viol.extend(v)
+            if status == "ok":
+                nt.append(label)
+        return {"viol": viol, "n": len(case["others"]), "nt": nt}
+    if k == "param-dyn":
+        viol, nt = [], []
+        n = 0
+        for ptype in case.get("ptypes", ("Kind", "UInt:8")):
+            for arg in ("field", "literal", "outer-param", "expr"):
+                for size in ("2", "length", "length+0"):
+                    for start in ("2", "skip", "$next"):
+                        n += 1
+                        lit = "Kind.KB" if ptype == "Kind" else "1"
+                        a = {"field": "kind" if ptype == "Kind" else "length", "literal": lit, "outer-param": "op",
+                             "expr": ("flag ? Kind.KA : Kind.KB") if ptype == "Kind" else "length + 1"}[arg]
+                        main = ('[$default byte_order: "LittleEndian"]\nenum Kind:\n  KA = 0\n  KB = 1\n'
+                                "struct Body(k: %s):\n  0 [+1]  UInt  y\n  if k == %s:\n    1 [+1]  UInt  z\n  let kk = k\n"
+                                "struct Main(op: %s):\n  0 [+1]  bits:\n    0 [+1]  Kind  kind\n    1 [+2]  UInt  skip\n    3 [+1]  Flag  flag\n    4 [+4]  UInt  length\n"
+                                "  1 [+1]  UInt  pad\n  %s [+%s]  Body(%s)  body\n  let tail_y = body.y\n") % (ptype, lit, ptype, start, size, a)
+                        cns = "::emboss_generated_code"
+                        oparg = "%s::Kind::KB" % cns if ptype == "Kind" else "1"
+                        drv = ("#include \"prog.emb.h\"\n#include <string>\nint main() { unsigned char b[24] = {0x20, 0, 0, 0}; auto v = %s::MakeMainView(%s, b, sizeof b); (void)v.Ok();"
+                               " (void)v.body().y().Read(); (void)v.body().has_z(); (void)v.tail_y().Read(); (void)v.body().kk().Read(); (void)v.SizeInBytes();"
+                               " auto w = v; (void)v.Equals(w); std::string t = ::emboss::WriteToString(v); (void)::emboss::UpdateFromText(v, t); return 0; }\n" % (cns, oparg))
+                        label = "param-dyn %s arg=%s size=%s start=%s" % (ptype, arg, size, start)
+                        v, status = compile_only({"m.emb": main}, "m.emb", lambda ir: drv, "c++11", True, "g++", label, {"emb": main})
+                        viol.extend(v)
+                        if status == "ok":
+                            nt.append(label)
+        return {"viol": viol, "n": n, "nt": nt}
     if k == "import":
         ns = case["ns"]
         imp = ('[$default byte_order: "LittleEndian"]\n' + ('[(cpp) namespace: "x::y"]\n' if ns else "") +
